@@ -400,7 +400,13 @@ class SimSource(Observable):
                     self._emit(observer, k, v, rec)
             return Disposable(closed)
         ds = []
-        for t, k, v in self.events:
+        sync_part = []
+        events = self.events
+        if self.kind == "syncthen" and events:
+            # like a BehaviorSubject: the first event is delivered synchronously inside subscribe(), WITHOUT the emitter
+            # catching what the observer raises (it propagates out of _subscribe_core); the rest is scheduled like a cold source
+            sync_part, events = events[:1], events[1:]
+        for t, k, v in events:
             def fire(k=k, v=v):
                 if rec.open() or self.rogue:
                     self._emit(observer, k, v, rec)
@@ -413,6 +419,15 @@ class SimSource(Observable):
                 for d in ds:
                     d.dispose()
 
+        for t, k, v in sync_part:
+            if k in "CE" and rec.term_seq is None:
+                rec.term_seq = w.tick()
+            if k == "N":
+                observer.on_next(v)
+            elif k == "C":
+                observer.on_completed()
+            else:
+                observer.on_error(v if isinstance(v, Exception) else SourceError(v))
         return Disposable(dispose_cold)
 
 
